@@ -299,7 +299,7 @@ def handle (cmd : String) (args : List String) : String :=
     let infl := (kv toks "inflight") == some "1" && (kv toks "early") != some "1"
     let held := (kv toks "hold") == some "1" && (kv toks "early") != some "1"
     "ret=errclosed fast=1 listener=closed post=refused h1idle=closed inflight=" ++ (if infl then "done" else "n/a") ++
-      " drain=" ++ (if infl then "ok" else "n/a") ++ " during=" ++ (if held then "refused" else "n/a") ++
+      " drain=" ++ (if infl then "ok" else "n/a") ++ " during=" ++ (if held then "refused" else "n/a") ++ " held=" ++ (if held then "ok" else "n/a") ++
       " counted=" ++ (if (kv toks "early").getD "0" == "1" then "n/a" else "ok")
   | "life", _ => "closed=1 released=1"    -- C11: the proxy cut / released the connection
   | "certrace", toks => "ok last=" ++ (kv toks "n").getD "?"   -- C14: no torn pair under concurrent handshakes; converges to the last update
